@@ -205,7 +205,7 @@ func VH_C10_TGSReferralChain() {
 		var enc messages.EncKDCRepPart
 		enc.Nonce = zzverif.Int()
 		enc.SRealm = rep.Ticket.Realm
-		enc.AuthTime, enc.StartTime = zzverif.Now(), zzverif.Now()
+		enc.AuthTime, enc.StartTime = zzverif.Now().Add(-time.Minute), zzverif.Now().Add(-time.Minute) // issued a minute ago: in force now
 		enc.EndTime = zzverif.Now().Add(time.Hour)
 		enc.Key = types.EncryptionKey{KeyType: 18, KeyValue: zzverif.Bytes(32)}
 		enc.SName = rep.Ticket.SName
@@ -365,10 +365,24 @@ func VH_C12_SendToKDC() {
 		c.LibDefaults.UDPPreferenceLimit = 1465 // larger than the request: UDP first, then TCP
 	}
 	cl := NewWithPassword("u", "R", "p", c, DisablePAFXFAST(true))
+	vhC12Exchange(cl, n, pref, req)
+	if zzverif.Param("exchanges") == 2 {
+		// a second exchange by the same client, the endpoints behaving in an unrelated way: what the first
+		// exchange taught the client must not cost it a working KDC now
+		zzverif.NextEpoch()
+		zzverif.Reach("second-exchange")
+		vhC12Exchange(cl, n, pref, req)
+	}
+}
+
+// vhC12Exchange: one exchange and its oracle (relative to the stub and dial counters at its start).
+func vhC12Exchange(cl *Client, n, pref int, req []byte) {
+	nk0 := zzverif.CallCount("KRBError).Unmarshal")
+	dials0 := zzverif.GhostCount("dials")
 	rb, err := cl.sendToKDC(req, "R")
 	// ---- what the endpoints are like (ghost knowledge) and what the code did ---------------------------
 	nk := zzverif.CallCount("KRBError).Unmarshal")
-	dials := zzverif.GhostCount("dials")
+	dials := zzverif.GhostCount("dials") - dials0
 	zzverif.Assert("bounded-connection-attempts", dials <= 2*n)
 	tcpAllowed, udpAllowed := true, pref != 0
 	anyAnswers := false
@@ -378,7 +392,7 @@ func VH_C12_SendToKDC() {
 	// did any of the replies that were looked at decode as a KRB-ERROR?
 	sawKRBError := false
 	var lastErr messages.KRBError
-	for c := 0; c < nk; c++ {
+	for c := nk0; c < nk; c++ {
 		if zzverif.CallOK("KRBError).Unmarshal", c) {
 			sawKRBError = true
 			lastErr = *zzverif.CallArg("KRBError).Unmarshal", c, 0).(*messages.KRBError)
@@ -389,7 +403,7 @@ func VH_C12_SendToKDC() {
 		// the bytes returned are the complete reply of an endpoint that answers
 		genuine := false
 		for i := 1; i <= n; i++ {
-			genuine = zzverif.Or(genuine, zzverif.And(zzverif.EqBytes(rb, []byte{0x6b, byte(i)}), zzverif.Or(zzverif.EndpointAnswers(i, true), zzverif.EndpointAnswers(i, false))))
+			genuine = zzverif.Or(genuine, zzverif.And(len(rb) == 3 && rb[0] == 0x6b && rb[1] == byte(i), zzverif.Or(zzverif.EndpointAnswers(i, true), zzverif.EndpointAnswers(i, false))))
 		}
 		zzverif.Assert("returned-bytes-are-the-complete-answer-of-a-working-kdc", genuine)
 	} else {
